@@ -174,7 +174,7 @@ def large_heuristic_cases(draw, presentations=None, algs=None):
     """The eleven cheap heuristics on 40-303 items (sizes around powers of two included), partitioners with 2-40 bins: far beyond the
     sizes the exact oracles allow, for the predicates that need no optimum."""
     alg = draw(st.sampled_from(algs or LARGE_HEURISTICS))
-    pres = draw(st.sampled_from(presentations or ["list", "list", "array", "dict-str", "dict-int", "names", "names-array"]))
+    pres = draw(st.sampled_from(presentations or ["list", "list", "array", "dict-str", "dict-int", "names", "names-array", "dict-mixed"]))
     n = draw(st.sampled_from([40, 64, 65, 100, 128, 129, 200, 256, 257, 300])) + draw(st.integers(0, 3))
     seed = draw(st.integers(0, 2 ** 40))
     case = {"alg": alg, "pres": pres, "nseed": draw(st.integers(0, 5))}
